@@ -103,7 +103,8 @@ def oracle(case, mline, iline):
                                           "did not close the connection"))
     wrong = [d for d in d1 if d != spec]
     if wrong and spec not in ("FAULT", "OUTOFFUEL", ""):
-        kl = "handover-unparsed" if " ho=-" not in case else "stream-effect-differs-from-decode"
+        kl = "handover-unparsed" if " ho=-" not in case else (
+            "meta-bitfield-stall" if case.startswith("role=meta") and any("st=SKIP" in d for d in wrong) else "stream-effect-differs-from-decode")
         bad.append((kl, "after quiescence the connection state is not the state the delivered byte stream denotes "
                         "(complete messages left undispatched): got '%s' want '%s'" % (wrong[0], spec)))
     return bad
@@ -175,5 +176,5 @@ def run(rep, tier, seed, replay):
                         "distinct case whose decode emits at least two effects (exact) or that ran to the end (free)",
                    samples=samples, input_distribution=stats, mismatches=mism, exhaustive=False)
     rep.assumptions += ["plain-text connections only (MSE wire peer not available)", "incoming connections, private torrents (PEX off), DHT off",
-                        "metadata (magnet) connection role not driven",
+                        "metadata (magnet) connection role driven with a magnet-style meta_download torrent; its ut_metadata piece exchange is C20's",
                         "exact comparison with the write side held; free-mode scenarios judged on safety only"]
